@@ -3,8 +3,14 @@
 Valid cases come from the grammar vlib/gen/c18_grammar.py (every instruction of every phase, every type), mistakes
 from the operators of vlib/gen/c18_mutate.py (token deletion / duplication / transposition / replacement from the DSL
 dictionary, line operators, header mutilation, quote imbalance, character insertion / deletion, truncation at any
-character, wrong-type arguments, ill-formed / extreme INTEGER, REGEX, replacement, GLOB and range vocabularies,
-references to symbols of the wrong type).  Everything is run in-process through MainProgram.execute.
+character, wrong-type arguments, ill-formed / extreme vocabularies for every syntax element that has a form: INTEGER
+(one expression per exception class eval() can raise, non-int values, values beyond Python's int -> str / float
+limits), REGEX, replacement, GLOB, LINE-NUMBER-RANGE, timeout, env NAME, SYMBOL-NAME, relativity options,
+here-document start / end marker, words of closed sets (status, file type, true/false, act/!act, char-case),
+values that depend on a sandbox / home directory (validated late), references to symbols of the wrong type).
+vlib/gen/c18_corpus.py holds one hand-written text per kind of mistake the statement names (with the outcome the
+manual demands) and the regression cases; G.DEEP_CONSTRUCTS valid texts with one construct nested 20 .. 3000 deep.
+Everything is run in-process through MainProgram.execute.
 
 Oracle (property statement + `exactly help case spec`): the run terminates, no exception escapes, stdout is exactly
 one identifier of the documented table and the exit code is the one the table gives for it, the identifier is not
@@ -13,7 +19,10 @@ INTERNAL_ERROR and no Python traceback of the program is printed; a report with 
 file of the case, the line exists, the quoted source is that line (and the following ones) of that file.
 For a *targeted* mistake (one ill-formed value / one reference of the wrong type put into an instruction that is
 not a definition) more is demanded: the case must be rejected (exit 65, or HARD_ERROR when the instruction runs) and
-the location must be the first line of that very instruction.
+the location must be the first line of that very instruction.  Mistakes of form (symbol name, word of a closed set,
+here-document never ended) are demanded to be rejected also inside definitions.
+An INTERNAL_ERROR / escaped exception is bucketed by (exception type, innermost exactly_lib frame); a bucket is
+either a violation or - when the observation is exactly what a listed defect predicts for this text - a known finding.
 """
 import os
 import random
@@ -23,6 +32,7 @@ import signal
 from hypothesis import strategies as st
 
 from vlib import driver, fuzz
+from vlib.gen import c18_corpus as K
 from vlib.gen import c18_grammar as G
 from vlib.gen import c18_mutate as M
 from vlib.ref import c18_report as R
@@ -35,8 +45,12 @@ RULE = ('a case = a grammatical test case (token list; all instructions / types 
         'the parent and Exactly ran on it; distinct = distinct mutated text; labels: op, outcome, parent outcome, '
         '"changed" = outcome differs from the parent\'s.  bad_values: small cases built around one instruction that '
         'holds an INTEGER / REGEX / replacement / GLOB / range / symbol reference, one targeted replacement per '
-        'mutant.  truncate_every_char: every prefix of a fixed corpus of cases.  byte_cases / atheris_campaign: byte '
-        'strings decoded into grammar choices + ops (coverage guided in the thorough tier).')
+        'mutant, directed at the vocabulary of the focus (int regex repl range glob ref structure path tmo name enum '
+        'marker heredoc envname rel).  truncate_every_char: every prefix of 16 (quick) / 400 (thorough) generated '
+        'cases and of the hand-written texts.  literal_texts: the hand-written corpus with the outcome the manual '
+        'demands + the regression cases.  deep_nesting: valid texts, one construct nested N deep (only the first '
+        'sentence of the property applies: documented outcome, no uncaught exception).  lean_mutants / '
+        'coverage_campaign: byte strings decoded into grammar choices + ops (coverage guided by atheris).')
 ASSUMPTIONS = [
     'a line is what "\\n" (after universal-newline reading) ends; line numbers in reports count those lines',
     'an ill-formed value inside a `def` is only required to be reported if and where the symbol is used (an unused '
@@ -50,6 +64,16 @@ ASSUMPTIONS = [
     'a reference to a data-type symbol (string / list / path) in place of another symbol is not required to be '
     'rejected (conversions exist); only logic-type symbols in the wrong place are',
     'hang = no result within 20 s and again within 60 s (generated cases run for ~30 ms)',
+    'an instruction that lacks its last argument may take the next line as its continuation (KF-C07-1): "missing '
+    'argument" is demanded to be a SYNTAX_ERROR only at the end of the file',
+    'an ill-formed value that depends on a sandbox directory (@[EXACTLY_ACT]@ ...) is validated when its instruction '
+    'runs: if the parent already fails before it, the identical failure is accepted',
+    'deep nesting of a valid construct may hit an implementation limit: SYNTAX_ERROR / VALIDATION_ERROR / HARD_ERROR / '
+    'INTERNAL_ERROR are accepted for it (labelled), an uncaught exception or a hang is not',
+    'SystemExit / KeyboardInterrupt raised by an INTEGER expression (`exit()`) are refused by the harmlessness gate '
+    'and never generated',
+    'a SYMBOL-NAME is demanded to be rejected only if it holds an ASCII character that is neither alphanumeric nor '
+    '"_"; a word of a closed set only if no word of the set equals it ignoring case',
 ]
 
 IDENTS_COMPLETE = ('PASS', 'FAIL', 'XFAIL', 'XPASS')
@@ -100,12 +124,14 @@ def ident_of(obs):
 # ---- defect models (genuine defects of the unchanged tree, see the final report) ---------------------------------------
 def classify_internal(files, tb, err=None):
     """-> 'KF-C18-n' when the INTERNAL_ERROR is exactly what a modelled defect predicts for this text, else None"""
+    texts = list(files.values())
+    has_nul = any('\x00' in t for t in texts)
     if tb is None:
+        if has_nul and re.search(r'(^|\n)Exception:\nembedded null (byte|character)\n', err or ''):
+            return 'KF-C18-4'  # the same, reported by the last-resort handler of the processor (`including`)
         return None
     inner = tb['innermost_exactly']
-    texts = list(files.values())
-    if tb['type'] == 'ValueError' and tb['message'] in ('embedded null byte', 'embedded null character') \
-            and any('\x00' in t for t in texts):
+    if tb['type'] == 'ValueError' and tb['message'] in ('embedded null byte', 'embedded null character') and has_nul:
         # KF-C18-4: a NUL character in an argument that becomes a file name / program argument / environment value
         # reaches the OS interface unchecked.  Model: the text contains NUL and the exception is the one (type and
         # message) with which CPython's OS interface refuses a string that contains NUL.
@@ -114,7 +140,81 @@ def classify_internal(files, tb, err=None):
     if m and inner == ('exactly_lib/util/symbol_table.py', 'lookup') and tb['type'] == 'KeyError' \
             and err.startswith('In [cleanup]'):
         return 'KF-C18-5' if _is_kf5(files, m.group(1)) else None
+    if tb['type'] == 'OverflowError' and tb['message'] == 'int too large to convert to float' \
+            and inner == ('exactly_lib/util/process_execution/process_executor.py', 'execute'):
+        # KF-C18-9: `timeout = N` with an int that float() refuses reaches subprocess unchecked.
+        # Model: some `timeout = V` of the text has such a V (V is a word of the fixed vocabulary).
+        for text in texts:
+            for v in re.findall(r'(?m)^\s*timeout\s*=\s*(\S+)\s*$', text):
+                if _power_of_ten(v.strip('\'"')) >= 309:  # 10**308 < the largest float < 10**309
+                    return 'KF-C18-9'
+        return None
+    if tb['type'] == 'OSError' and tb['message'].startswith('[Errno 36] File name too long') and inner in _KF10_SITES:
+        # KF-C18-10: a file name the OS refuses as too long (a component of more than 255 bytes, or more than 4095
+        # bytes in all) makes Path.exists() / os.chdir() raise at sites that expect only "does not exist".
+        # Model: the text contains such a name.
+        if any(_has_overlong_name(t) for t in texts):
+            return 'KF-C18-10'
+        return None
     return None
+
+
+_KF10_SITES = (('exactly_lib/impls/instructions/multi_phase/change_dir.py', 'custom_main'),
+               ('exactly_lib/impls/instructions/multi_phase/copy.py', '__call__'),
+               ('exactly_lib/impls/types/program/validators.py', '_validate_path'))
+
+
+def _has_overlong_name(text):
+    for word in re.findall(r'[^\s\'"]+', text):
+        if len(word.encode('utf-8')) > 4000 or any(len(c.encode('utf-8')) > 255 for c in word.split('/')):
+            return True
+    return False
+
+
+def classify_escaped(files, obs, depth=0):
+    """-> 'KF-C18-n' when the escaped exception is exactly what a modelled defect predicts for this text"""
+    tb = R.traceback_summary(obs['exception'])
+    typ = obs['exception'].split(':', 1)[0]
+    inner = tb['innermost_exactly'] if tb else None
+    texts = list(files.values())
+    in_report_printing = bool(tb) and any(f == ('exactly_lib/common/result_reporting.py', 'print_major_blocks')
+                                          for f in tb['frames'])
+    if typ == 'ValueError' and 'Exceeds the limit (4300 digits) for integer string conversion' in obs['exception'] \
+            and in_report_printing and ident_of(obs) in ('FAIL', 'XFAIL', 'HARD_ERROR', 'XPASS'):
+        # KF-C18-8: the verdict is computed and printed, then the explanation of the failure is rendered with str() of
+        # an int beyond Python's int -> str limit: ValueError escapes from the report printer.
+        # Model: the text contains an INTEGER of the vocabulary whose value is beyond that limit.
+        # (10**4299 has 4300 digits and is printed, 10**4300 has 4301)
+        if any(_power_of_ten(w.strip('\'"')) >= 4300 for t in texts for w in t.split()):
+            return 'KF-C18-8'
+    if typ == 'SystemExit' and any(re.search(r'(^|[\s\'"])(exit|quit)\(\d*\)', t) for t in texts):
+        # KF-C18-12: an INTEGER expression that calls exit() / quit(): SystemExit is no Exception, python_evaluate
+        # lets it pass and the program ends with that exit code and without any identifier.
+        # Model: SystemExit escaped and the text holds such a call as a word.
+        return 'KF-C18-12'
+    if typ == 'RecursionError' and in_report_printing and ident_of(obs) in ('FAIL', 'XFAIL', 'HARD_ERROR', 'XPASS'):
+        # KF-C18-11: the verdict is computed and printed, then the explanation of it - as deep as the expression /
+        # the path it explains - is rendered recursively: RecursionError escapes from the report printer.
+        # Model: the text holds a construct that is nested / repeated at least 100 times.
+        if max([depth] + [_repetition(t) for t in texts]) >= 100:
+            return 'KF-C18-11'
+    return None
+
+
+def _power_of_ten(word):
+    """N when the word is [-]10**N (the only form of huge integers in the vocabulary), else -1"""
+    m = re.fullmatch(r'-?10\*\*(\d{1,6})', word)
+    return int(m.group(1)) if m else -1
+
+
+def _repetition(text):
+    """the largest number of times one word is repeated in a row / one of ( / occurs in a word"""
+    best, run, prev = 0, 0, None
+    for w in text.split():
+        run = run + 1 if w == prev else 1
+        prev = w
+        best = max(best, run, w.count('/'), w.count('('))
+    return best
 
 
 def _is_kf5(files, name):
@@ -164,7 +264,7 @@ def generic_problem(files, obs):
         typ = obs['exception'].split(':', 1)[0]
         inner = tb['innermost_exactly'] if tb else None
         return ('escaped-exception/%s/%s' % (typ, '%s:%s' % inner if inner else '?'),
-                {'what': 'an exception escaped from MainProgram.execute'}, None)
+                {'what': 'an exception escaped from MainProgram.execute'}, classify_escaped(files, obs))
     ident = ident_of(obs)
     if ident is None:
         return 'stdout-is-not-one-identifier-line', {'what': 'stdout must be one line: an exit identifier'}, None
@@ -250,6 +350,19 @@ def targeted_demand(doc, f, info):
         return None
     if info['op'] == 'badinstr':
         return {'why': 'there is no instruction %r' % info['token'], 'idents': ('SYNTAX_ERROR',)}
+    if info['op'] == 'badval':
+        # mistakes of form: rejected when the text is read, wherever they stand (also in a definition never used)
+        kind, eff = info['kind'], info['effective']
+        if kind == 'name' and re.search(r'[^\w]', eff, re.ASCII if eff.isascii() else 0):
+            return {'why': 'SYMBOL-NAME %r is not "a combination of alphanumeric characters and underscores"' % eff,
+                    'idents': ('SYNTAX_ERROR', 'VALIDATION_ERROR')}
+        if kind.startswith('enum:'):
+            allowed = M.ENUM_SETS[kind.split(':')[1]]
+            if eff not in allowed and eff.lower() not in [a.lower() for a in allowed]:
+                return {'why': '%r is none of %s' % (eff, '|'.join(allowed)), 'idents': ('SYNTAX_ERROR', 'VALIDATION_ERROR')}
+        if kind == 'marker':
+            return {'why': 'the here-document is never ended: no line equals its marker %r (that line is now %r)'
+                           % (info['old'], eff), 'idents': ('SYNTAX_ERROR',), 'unless_line_equals': info['old']}
     if elem['name'] == 'def':
         return None
     if info['op'] == 'wrongref':
@@ -270,7 +383,7 @@ def targeted_demand(doc, f, info):
     kind, eff = info['kind'], info['effective']
     if info['literal_ctx']:
         eff = info['token']
-    if kind == 'int':
+    if kind in ('int', 'tmo'):
         if info['prev'] == '=' and elem['name'] == 'def':
             return None
         c = R.int_class(eff)
@@ -295,12 +408,17 @@ def targeted_demand(doc, f, info):
     return None
 
 
+_LATE = re.compile(r'@\[EXACTLY_(ACT|TMP|RESULT)\]@')
+
+
 def strict_problem(doc, f, info, demand, files, obs, parent_obs):
     """-> None | (bucket, detail, known)"""
     ident = ident_of(obs)
     p_ident = ident_of(parent_obs)
     fname = 't.case' if f == 0 else G.INC_NAME
     want_line = info['elem_line']
+    if 'unless_line_equals' in demand and demand['unless_line_equals'] in R.file_lines(files[fname]):
+        return None  # another line of the file ends the here-document
     detail = {'mistake': demand['why'], 'mutated_token': info['token'], 'replaced': info['old'],
               'file': fname, 'instruction_first_line': want_line, 'parent_outcome': p_ident}
     kind = info['kind'].split(':')[0]
@@ -308,6 +426,11 @@ def strict_problem(doc, f, info, demand, files, obs, parent_obs):
         if p_ident == 'HARD_ERROR' and ident == 'HARD_ERROR' and obs['err'] == parent_obs['err']:
             return None  # the parent stops before the instruction runs
         rep = R.parse_report(obs['err'])
+        if not rep['chain'] and rep['actor'] is not None and ident == 'HARD_ERROR' and info.get('elem_name') == 'stdin' \
+                and _LATE.search(info['token']):
+            # the contents of stdin are produced when the act phase reads them: a value of `stdin = ...` that depends
+            # on the sandbox is validated then, and the report is the one of the act phase ("Stdin set in [setup]")
+            return None
         if not rep['chain']:
             return 'targeted-no-location/%s/%s' % (kind, ident), dict(detail, what='report without location'), None
         last = rep['chain'][-1]
@@ -318,6 +441,11 @@ def strict_problem(doc, f, info, demand, files, obs, parent_obs):
                          reported=[got_file, last[1]]), None)
         return None
     if ident == 'SKIPPED' and p_ident == 'SKIPPED' and 'idents' not in demand:
+        return None
+    if _LATE.search(info['token']) and p_ident in ('FAIL', 'XFAIL', 'HARD_ERROR') and 'idents' not in demand and \
+            (obs['exit'], obs['out'], obs['err']) == (parent_obs['exit'], parent_obs['out'], parent_obs['err']):
+        # a value that depends on a sandbox directory is validated when its instruction runs ("at the latest as
+        # HARD_ERROR when the instruction runs"); the parent fails before that, the mutant fails identically
         return None
     if ident == 'INTERNAL_ERROR':
         return None  # the generic oracle has reported / classified it
@@ -388,7 +516,8 @@ def check_doc(doc, muts, strict, tier_chars):
             f, info = infos[0]
             elems = doc['elems'] if f == 0 else doc['inc']
             flat, owner = G.flatten(elems)
-            info = dict(info, elem_line=M.line_of_token(flat, owner.index(info['elem'])))
+            info = dict(info, elem_line=M.line_of_token(flat, owner.index(info['elem'])),
+                        elem_name=elems[info['elem']]['name'])
             kind = info['kind'].split(':')[0]
             labels.append('target:%s/%s' % (kind, info['op']))
             labels.append('instr:' + elems[info['elem']]['name'])
@@ -433,20 +562,26 @@ def strategy_generic(tier):
     })
 
 
-_FOCI = ['int', 'int', 'regex', 'regex', 'repl', 'repl', 'range', 'glob', 'ref', 'ref', 'structure']
+_FOCI = ['int', 'int', 'regex', 'regex', 'repl', 'repl', 'range', 'glob', 'glob', 'ref', 'ref', 'structure',
+         'path', 'path', 'tmo', 'name', 'enum', 'marker', 'heredoc', 'envname', 'rel', 'act', 'act']
 
 
 def strategy_bad_values(tier):
     def for_focus(focus):
         if focus == 'structure':
-            ops = M.op_strategy(['badhdr', 'badinstr'])
+            ops = M.op_strategy(['badhdr', 'badinstr', 'actbad'])
+            focus = None
+        elif focus == 'act':
+            ops = M.op_strategy(['actbad'])
             focus = None
         elif focus == 'ref':
             ops = M.op_strategy(['wrongref'])
-        elif focus == 'glob':
-            ops = M.op_strategy(['extreme', 'badval'])
+        elif not M.BAD[focus]:
+            ops = M.op_strategy(['extreme']).map(lambda op: dict(op, k=focus))
+        elif focus in ('tmo', 'name', 'enum', 'marker'):
+            ops = M.op_strategy(['badval', 'extreme']).map(lambda op: dict(op, k=focus))
         else:
-            ops = M.op_strategy(['badval', 'badval', 'badval', 'extreme'])
+            ops = M.op_strategy(['badval', 'badval', 'badval', 'extreme']).map(lambda op: dict(op, k=focus))
         return st.fixed_dictionaries({
             'doc': G.documents(focus),
             'muts': st.lists(st.lists(ops, min_size=1, max_size=1), min_size=1, max_size=4),
@@ -462,27 +597,43 @@ def corpus_doc(seed, focus=None):
     return G.build_document_g(G.ChoiceG(lambda k: rng.randrange(k), focus))
 
 
+_TRUNC_FOCI = [None, 'int', 'regex', 'repl', 'range', 'ref', None, 'glob', 'path', 'tmo', None, 'name', 'enum', 'marker',
+               'heredoc', 'envname', 'rel', None]
+
+
 def enum_truncations(tier):
     try:
         base = int(os.environ.get('VERIF_SEED', '1') or '1')
     except ValueError:
         base = 1
-    n_docs = 10 if tier == 'quick' else 160
+    n_docs = 16 if tier == 'quick' else 400
     chunk = 24
     for d in range(n_docs):
         seed = base * 100003 + d
-        focus = [None, 'int', 'regex', 'repl', 'range', 'ref', None, 'glob'][d % 8]
+        focus = _TRUNC_FOCI[d % len(_TRUNC_FOCI)]
         doc = corpus_doc(seed, focus)
         files = M.parent_texts(doc)
         for name in sorted(files):
             n = len(files[name])
             for start in range(0, n, chunk):
                 yield {'seed': seed, 'focus': focus, 'file': name, 'from': start, 'to': min(n, start + chunk)}
+    # the hand-written texts (each holds one mistake / one unusual value): all of them in the thorough tier, one
+    # in eight (chosen by the seed) in the quick tier
+    for i, e in enumerate(K.entries()):
+        if tier == 'quick' and i % 8 != base % 8:
+            continue
+        n = min(len(e['files']['t.case']), 400)
+        for start in range(0, n, chunk):
+            yield {'corpus': e['name'], 'file': 't.case', 'from': start, 'to': min(n, start + chunk)}
 
 
 def check_truncations(case) -> Verdict:
-    doc = corpus_doc(case['seed'], case['focus'])
-    parent = M.parent_texts(doc)
+    if 'corpus' in case:
+        parent = [e for e in K.entries() if e['name'] == case['corpus']][0]['files']
+        ident = 'corpus:' + case['corpus']
+    else:
+        parent = M.parent_texts(corpus_doc(case['seed'], case['focus']))
+        ident = '%d|%s' % (case['seed'], case['focus'])
     labels = []
     keys = []
     for cut in range(case['from'], case['to']):
@@ -495,7 +646,7 @@ def check_truncations(case) -> Verdict:
         labels.append('out:' + _outcome_label(obs))
         if obs['exit'] == 65:
             labels.append('cat:' + _err_category(obs))
-        key = '%d|%s|%s|%d' % (case['seed'], case['focus'], case['file'], cut)
+        key = '%s|%s|%d' % (ident, case['file'], cut)
         keys.append(key)
         prob = generic_problem(files, obs)
         if prob:
@@ -504,9 +655,97 @@ def check_truncations(case) -> Verdict:
     return Verdict(True, nontrivial=bool(keys), key='\x00'.join(keys) or None, labels=labels)
 
 
+# ---- hand-written texts (vlib/gen/c18_corpus.py) and the regression cases ------------------------------------------------------
+_EXPECT = {'SYNTAX': ('SYNTAX_ERROR',), 'VALIDATION': ('VALIDATION_ERROR',), 'REJECT': ('SYNTAX_ERROR', 'VALIDATION_ERROR'),
+           'REJECT|HARD': ('SYNTAX_ERROR', 'VALIDATION_ERROR', 'HARD_ERROR'), 'ACCESS': ('FILE_ACCESS_ERROR',)}
+
+
+def enum_literal(tier):
+    for e in K.entries():
+        yield e
+
+
+def check_literal(case) -> Verdict:
+    """case = {'name', 'files': {name: text}, 'expect': key of _EXPECT | None, 'line': int | None}"""
+    files = case['files']
+    labels = ['literal:' + (case.get('expect') or 'generic')]
+    obs = observe(files)
+    labels.append('out:' + _outcome_label(obs))
+    key = 'literal|' + case.get('name', '') + '|' + '|'.join(files[k] for k in sorted(files))
+    prob = generic_problem(files, obs)
+    if prob:
+        return _fail('literal/' + prob[0], prob[1], files, obs, labels, key, known=prob[2], extra={'name': case.get('name')})
+    want = _EXPECT.get(case.get('expect'))
+    ident = ident_of(obs)
+    if want and ident not in want:
+        return _fail('literal/expected-%s/%s' % (case['expect'], ident),
+                     {'what': 'the mistake %r must be reported as one of %s' % (case.get('name'), '/'.join(want))},
+                     files, obs, labels, key)
+    if want and case.get('line'):
+        rep = R.parse_report(obs['err'])
+        got = rep['chain'][0][1] if rep['chain'] else None
+        if got != case['line']:
+            return _fail('literal/wrong-line/%s' % ident,
+                         {'what': 'the report of %r must point at line %d of t.case' % (case.get('name'), case['line']),
+                          'reported_line': got}, files, obs, labels, key)
+    return Verdict(True, nontrivial=True, key=key, labels=labels)
+
+
+# ---- deep nesting: valid texts, only the generic first sentence of the property applies -------------------------------------
+def enum_deep(tier):
+    for name in sorted(G.DEEP_CONSTRUCTS):
+        for n in G.DEEP_DEPTHS[tier]:
+            yield {'construct': name, 'depth': n}
+
+
+def check_deep(case) -> Verdict:
+    """the text is valid whatever the depth: Exactly must terminate with a documented outcome and without an
+    uncaught exception; an implementation limit may show as SYNTAX_ERROR / VALIDATION_ERROR / HARD_ERROR /
+    INTERNAL_ERROR (labelled), the location of a report must be true"""
+    text = G.DEEP_CONSTRUCTS[case['construct']](case['depth'])
+    files = {'t.case': text}
+    labels = ['deep:' + case['construct']]
+    obs = observe(files)
+    o = _outcome_label(obs)
+    labels += ['out:' + o, 'deep-out:%s@%d' % (o, case['depth'])]
+    key = 'deep|%s|%d' % (case['construct'], case['depth'])
+    brief = {'construct': case['construct'], 'depth': case['depth'], 'text_head': text[:300]}
+
+    def failed(bucket, what, known=None):
+        d = {'bucket': bucket, 'what': what, 'observed': _short(obs)}
+        d.update(brief)
+        if known:
+            return Verdict(ok=False, known=known, bucket=bucket, detail=d, labels=labels + ['known:' + known],
+                           nontrivial=True, key=key)
+        return fail(bucket, d, labels=labels, nontrivial=True, key=key)
+
+    if obs['timed_out']:
+        return failed('deep/hang', 'no result within 20 s and again within 60 s')
+    if obs['exception']:
+        tb = R.traceback_summary(obs['exception'])
+        typ = obs['exception'].split(':', 1)[0]
+        inner = tb['innermost_exactly'] if tb else None
+        known = classify_escaped(files, obs, case['depth'])
+        return failed('deep/escaped-exception/%s/%s' % (typ, '%s:%s' % inner if inner else '?'),
+                      'an exception escaped from MainProgram.execute', known)
+    ident = ident_of(obs)
+    if ident is None:
+        return failed('deep/stdout-is-not-one-identifier-line', 'stdout must be one line: an exit identifier')
+    if obs['exit'] != R.TABLE[ident]:
+        return failed('deep/exit-code-vs-identifier/%s/%s' % (ident, obs['exit']), 'exit code differs from the documented one')
+    if ident != 'INTERNAL_ERROR':
+        rep = R.parse_report(obs['err'])
+        if rep['actor'] is None and rep['chain']:
+            probs = R.check_location(rep, files)
+            if probs:
+                return failed('deep/wrong-location/' + ident, probs)
+    return Verdict(True, nontrivial=True, key=key, labels=labels)
+
+
 # ---- byte strings decoded into grammar choices and ops; the coverage-guided campaign (vlib/fuzz.py) ----------------------------
 _BYTE_OPS = M.GENERIC_OPS + M.TARGETED_OPS
-_BYTE_FOCI = [None, None, None, 'int', 'regex', 'repl', 'range', 'glob', 'ref']
+_BYTE_FOCI = [None, None, None, 'int', 'regex', 'repl', 'range', 'glob', 'ref', 'path', 'tmo', 'name', 'enum', 'marker',
+              'heredoc', 'envname', 'rel']
 
 
 def decode_bytes(data: bytes):
@@ -517,6 +756,8 @@ def decode_bytes(data: bytes):
     focus = _BYTE_FOCI[nxt(len(_BYTE_FOCI))]
     n_ops = [1, 1, 1, 2, 2, 3][nxt(6)]
     ops = [M.choice_op(nxt, _BYTE_OPS) for _ in range(n_ops)]
+    if focus in M.EXTREME:
+        ops = [dict(op, k=focus) if op['op'] in ('badval', 'extreme') else op for op in ops]
     doc = G.build_document_g(G.ChoiceG(nxt, focus))
     if M.mutate(doc, ops)[0] == M.parent_texts(doc):
         # no eligible position for the selected ops: a deletion is always possible
@@ -587,6 +828,12 @@ _CAMPAIGN_SEEDS = [
     _seed(None, 2, [('quote', 9, 3, 1), ('trunc', 40, 2, 0)], bytes([5] * 30)),
     _seed(None, 1, [('badhdr', 2, 0, 3)], bytes([9, 8, 7, 6, 5, 4, 3, 2, 1] * 4)),
     _seed('glob', 1, [('extreme', 0, 1, 7)], bytes([6, 6, 2, 6, 0, 7, 0, 0, 4, 0, 1, 2, 2, 1])),
+    _seed('path', 1, [('extreme', 3, 1, 11)], bytes([2, 4, 6, 8, 1, 3, 5, 7, 9, 0, 2, 4, 6, 8])),
+    _seed('tmo', 1, [('extreme', 0, 2, 5)], bytes([1, 1, 2, 3, 5, 8, 13, 21, 34, 55, 89, 144])),
+    _seed('name', 1, [('badval', 0, 0, 3)], bytes([3, 3, 3, 1, 1, 1, 2, 2, 2, 0, 0, 0])),
+    _seed('enum', 1, [('badval', 2, 1, 4)], bytes([7, 1, 7, 2, 7, 3, 7, 4, 7, 5, 7, 6])),
+    _seed('marker', 1, [('badval', 1, 1, 0)], bytes([4, 0, 4, 1, 4, 2, 4, 3, 4, 4, 4, 5])),
+    _seed('rel', 1, [('extreme', 4, 3, 16)], bytes([9, 9, 8, 8, 7, 7, 6, 6, 5, 5, 4, 4])),
 ]
 
 SUBS = [
@@ -595,6 +842,8 @@ SUBS = [
     Sub('bad_values', check_generic, strategy=strategy_bad_values, budget={'quick': 1300, 'thorough': 30000},
         render=_render_case),
     Sub('truncate_every_char', check_truncations, enumerate=enum_truncations, exhaustive=False),
+    Sub('literal_texts', check_literal, enumerate=enum_literal, exhaustive=False),
+    Sub('deep_nesting', check_deep, enumerate=enum_deep, exhaustive=False),
     Sub('lean_mutants', check_lean, strategy=strategy_lean, budget={'quick': 600, 'thorough': 20000},
         render=_render_case),
     fuzz.fuzz_sub('coverage_campaign', 'props.c18_mistakes', 'check_lean', 'decode_bytes', 'lean_mutants',
